@@ -34,6 +34,8 @@ CONSTANTS
   MaxA = %(maxa)d
 """
 
+CORPUS = os.path.join(os.path.dirname(SPEC), "corpus")   # real sections built by corpus-src/build.sh (input only; may be absent)
+
 TIERS = {
     "quick": dict(maxn=4, restrict=4, combos="CombosQuick", full="FullQuick", maxa=4),
     "thorough": dict(maxn=5, restrict=5, combos="CombosThorough", full="FullThorough", maxa=5),
@@ -255,9 +257,11 @@ def run(ctx):
 
     # ---- V
     if q:
-        args = ["--seed", ctx.seed, "--n", 8, "--steps", 150, "--max", 700, "--fixture", "/repo/fixtures/self", "--fixture-units", 5, "--fixture-max", 1500]
+        args = ["--seed", ctx.seed, "--n", 6, "--steps", 120, "--max", 600, "--fixture", "/repo/fixtures/self", "--fixture-units", 4, "--fixture-max", 1500,
+                "--corpus", CORPUS, "--corpus-steps", 60]
     else:
-        args = ["--seed", ctx.seed, "--n", 40, "--steps", 300, "--max", 2000, "--fixture", "/repo/fixtures/self", "--fixture-units", 40, "--fixture-max", 6000]
+        args = ["--seed", ctx.seed, "--n", 40, "--steps", 300, "--max", 2000, "--fixture", "/repo/fixtures/self", "--fixture-units", 40, "--fixture-max", 6000,
+                "--corpus", CORPUS, "--corpus-steps", 400]
     tr = ctx.record(bins["dev"], "dies-trace.ndjson", args)
     validate_units(ctx, tr)
 
@@ -269,7 +273,7 @@ def run(ctx):
         "the state graph of each (stream, API, start) is explored completely (all call scripts up to state equivalence); each transition is replayed from one witness script",
         "for forests with >= RestrictN entries: no trailing padding and entries without children carry no DW_AT_sibling; each forest's state graph is explored under one of the FullCombos (rotating), its raw/entry/header/abbreviation checks under all Combos",
         "error kinds (DuplicateAbbreviationCode, UnexpectedEof) are drift, not violations",
-        "V: units produced by gimli::write (never DW_TAG_base_type children, which the writer legitimately reorders) and /repo/fixtures/self; unit offsets < 2^31 are JSON numbers",
+        "V: units produced by gimli::write (never DW_TAG_base_type children, which the writer legitimately reorders), /repo/fixtures/self and the compiled corpus /verif/corpus (DWARF 2-5, 64-bit, type units, .dwo; not the .dwp packages); unit offsets < 2^31 are JSON numbers",
     ]
     ctx.finish("model_checking",
                rule="one case per abbreviation insertion sequence, per unit stream (header + raw reading + entry(offset) + lookups) and per transition "
@@ -318,8 +322,9 @@ def validate_units(ctx, trace, module="DiesTrace", chunk=2500):
             what = "call not explainable by the navigation machines: %s" % json.dumps(ev)[:500]
         ctx.violation(sig, what, full, None)
         rejected += 1
-        if rejected > 30:
-            raise ToolError("too many rejected trace events")
+        if rejected >= 6:
+            log("[c02] %d trace events rejected, remaining units are not validated" % rejected)
+            break
         # continue with the unit after the one containing the rejected event
         gi = starts[ui] + idx - 1
         ui = max(k for k in range(len(starts) - 1) if starts[k] <= gi) + 1
